@@ -34,6 +34,9 @@ def main():
         also = [x for x in sys.argv[sys.argv.index("--also") + 1].split(",") if x]
     if "--tier" in sys.argv:
         tier = sys.argv[sys.argv.index("--tier") + 1]
+    tag = "n"
+    if "--tag" in sys.argv:
+        tag = sys.argv[sys.argv.index("--tag") + 1]
     wt = "/root/scratch/neutralcheck-%d" % os.getpid()
     os.makedirs("/root/scratch", exist_ok=True)
     rc, out = sh(["git", "-C", "/repo", "worktree", "add", "--detach", wt])
@@ -44,7 +47,7 @@ def main():
         for i in sorted(os.listdir(base)):
             d = os.path.join(base, i)
             pf = os.path.join(d, "patch.diff")
-            if not os.path.isfile(pf):
+            if not os.path.isfile(pf) or not os.path.isdir(d):
                 continue
             sh(["git", "checkout", "--", "."], cwd=wt)
             sh(["git", "clean", "-fdq"], cwd=wt)
@@ -66,7 +69,7 @@ def main():
                 fv = [l.strip() for l in outc.splitlines() if l.startswith("  clause=") or l.startswith("HARNESS")][:2]
                 if fv:
                     firsts[p] = fv
-            name = "%s-n%s" % (prop, i)
+            name = "%s-%s%s" % (prop, tag, i)
             dst = os.path.join(VERIF, "neutral", name)
             os.makedirs(dst, exist_ok=True)
             shutil.copy(pf, os.path.join(dst, "patch.diff"))
